@@ -89,6 +89,11 @@ MatrixFamily(insts) ==
            : i \in insts}
     \cup {L(i.label \o "@stmt/function", HostFile("function", <<ExprStmt(i.tree)>>)) : i \in insts}
 C07Inst == Erc20Inst \cup DivMulInst
+OneUParam == <<<<[present |-> TRUE, storage |-> "", name |-> "n0"]>>, <<U256>>>>
+OpenClose(ps) == FnDecl("function", "close", VisAttr("external"), ps, <<>>, TRUE, <<DestructStmt>>)
+GuardedClose(ps) == FnDecl("function", "close", VisAttr("external") \o <<ModAttr("onlyOwner", 0 - 1)>>, ps, <<>>, TRUE, <<DestructStmt>>)
+OverloadMembers == << <<OpenClose(NoParams), GuardedClose(OneUParam)>>, <<GuardedClose(NoParams), OpenClose(OneUParam)>>,
+                      <<OpenClose(NoParams), OpenClose(OneUParam)>>, <<OpenClose(NoParams), GuardedClose(OneUParam), OpenClose(OneUParam)>> >>
 
 Files ==
     CASE Prop = "C05" -> ExprFamily(C05Inst) \cup StmtFamily(C05Inst) \cup MatrixFamily(C05Matrix)
@@ -97,6 +102,10 @@ Files ==
                          \cup {L(i.label \o "@stmt", HostFile("function", <<ExprStmt(i.tree)>>)) : i \in DivMulChainInst}
                          \cup {L(i.label, i.tree) : i \in PragmaFiles}
                          \cup StmtFamily({I("destruct:position", "S", DestructStmt)})
+                         \* overloads: functions of one name in one contract are functions of their own (the unprotected
+                         \* one first, last, and twice)
+                         \cup {L("destruct:overload:" \o ToString(k), InFile(<<N("SUP.ContractDefinition", [cty |-> "contract", name |-> "Over", bases |-> <<>>],
+                                   <<<<>>, OverloadMembers[k]>>)>>)) : k \in 1 .. Len(OverloadMembers)}
       [] Prop = "C08" -> ExprFamily(WriteInst) \cup DeclFamily(VarProduct \cup CalldataFns \cup CalldataTwo)
                          \cup {L(i.label, i.tree) : i \in ImmFiles \cup CalldataSeqFiles}
 
